@@ -13,7 +13,8 @@ EXPLANATION = (
     "answer independently of history (imports C02's cache-key rules when run under C02; the ep-key defect that made depth 4 read "
     '5,072,262 was C05.R3). The numbers themselves depend on C01 and are NOT decided. (R5) the figure counts legal sequences only if '
     'generation is exact: imports all clauses of C01; a counting twin of generate_moves (same cache discipline, returns the length) is '
-    'accepted at depth 0.'
+    'accepted at depth 0. R2 falls back to opaque apply / undo when the task body runs inside the routine (for_each), so that a result '
+    'read from shared state is reported by its expression.'
 )
 ASSUMPTIONS = [
     "rayon's sum() over a parallel iterator adds every element exactly once",
@@ -163,7 +164,11 @@ def r2_outer(ctx):
     facts = ctx.facts
     fn = facts.need_fn(OUTER)
     opaque = {n for n in facts.fns if n.startswith(MG) and n != OUTER} | {INNER}
-    outs = Engine(facts, opaque=opaque).run(OUTER)
+    try:
+        outs = Engine(facts, opaque=opaque).run(OUTER)
+    except PathLimit:
+        # the task body ran as part of the routine (a for_each instead of map + sum): only the shape of the result is needed here
+        outs = Engine(facts, opaque=opaque | {CHESSMOVE + '::apply', CHESSMOVE + '::undo'}, max_paths=20000).run(OUTER)
     ctx.touch(OUTER)
     base = [o for o in outs if o.kind == 'return' and dict(o.conds).get(('p', 2)) == 0]
     okb = len(base) == 1 and base[0].value[0] == 'call' and base[0].value[1].endswith('::len') and any(
@@ -232,7 +237,7 @@ def r2_outer(ctx):
     ctx.ob(rule, clo, 'task: clone board; apply; inner(depth-1, clone, next_player, fresh generator)', okc, found=detail,
            expected='local_board = board.clone(); apply; count_positions_inner(depth - 1, &mut local_board, next_player, &mut MoveGenerator::new())')
     # next_player = opposite(player): value captured as upvar2
-    outs2 = Engine(facts, opaque=opaque).run(OUTER)
+    outs2 = outs
     ok_np = False
     for o in outs2:
         for e in o.events:
